@@ -20,6 +20,12 @@ TEXT = {
          "same as C01; single-character terms in this engine (multi-line lexemes are covered by the lexer engine when registered)", "rapidcheck PBT, reference position model", "5/C10"),
  "C11": ("exploration", "The diagnostic text is parsed and compared with the reference LR(1) automaton (states by item set, actions, conflicts, rule numbers), with the real table through the hook, and executed by a text-driven interpreter against the real parser.",
          "same as C01; documented text format", "rapidcheck PBT, diagnostic-text parser + reference automaton + text-driven table interpreter", "5/C11"),
+ "C03": ("exploration", "Generated patterns in the documented syntax; for each, the automaton built by the real builder is compared with a reference DFA over all byte strings (exact per pattern), witnesses confirmed on the real matcher. A known construction defect (F5) is scoped by a behavioural model so that any other deviation is still reported.",
+         "reference regex semantics; real pattern parser/builder driven at run time through public API", "rapidcheck PBT, automata equivalence vs reference DFA + derivative matcher, three-way bug-model scope", "5/C03"),
+ "C12": ("exploration", "Sub-check (a): predicted automaton size vs states actually used for generated patterns with nested/large repetitions, with the cvector bounds monitor on. (Table caps and fixed stacks are added by later jobs of this check.)",
+         "builder capacity 1024 in the harness; bounds monitor hook", "rapidcheck PBT, invariant (used <= predicted) + bounds monitor", "5/C12"),
+ "C17": ("exploration", "Sub-check (a): category-mutated malformed patterns must be refused by both construction paths; scanning any string stays inside its NUL-terminated block (ASan). (Undeclared grammar symbols need compiled programs and are added by the compiled tier.)",
+         "reference classification VALID/MALFORMED/UNSPECIFIED", "rapidcheck PBT, mutation-based negative testing + ASan", "5/C17"),
  "C16": ("exploration", "Every input is parsed under all verbosity/stream combinations; results must agree and the verbose trace is replayed against the real table and the functor log of the same run.",
          "same as C01", "rapidcheck PBT, metamorphic (options) + trace replay invariant", "5/C16"),
 }
